@@ -18,27 +18,32 @@ CFG = {
             "non-trivial = not a bare state snapshot",
     "trusted_base": [
         "float64 steps of resizeImage are a parameter of the model with the hypothesis Sound (the comparison of the two scale "
-        "factors is exact; int((a/b)*x) lies in [ceil(q)-1, floor(q)] for q = a*x/b). The driver instantiates the parameter with "
-        "IEEE doubles (same operations, same order as the Go code) and asserts the hypothesis on every value it sees (verdict "
-        "'float hypothesis violated' otherwise) (DESIGN 3.5)",
-        "draw.NearestNeighbor.Scale, the PNG / base64 / sixel encoders and octreequant are not modelled (pixels of *rescaled* "
-        "images are only checked for size and for staying inside the image / window)",
+        "factors is exact; int((a/b)*x) lies in [ceil(q)-1, floor(q)] for q = a*x/b); signed boxes use the same parameter through the sign "
+        "symmetry of IEEE division, multiplication and truncation. The driver instantiates the parameter with IEEE doubles (same operations, "
+        "same order as the Go code) and asserts the hypothesis on every value it sees (DESIGN 3.5)",
+        "draw.NearestNeighbor.Scale, the PNG / base64 / sixel encoders and octreequant are not modelled: for a rescaled image the theorems cover "
+        "its pixel size and, for every image whatever its pixels, which pixels each block cell reads — not the scaler's choice of source pixels",
         "Go's image/color conversions NRGBA.RGBA() / RGBA.RGBA() are transcribed in Spec.Images (nrgbaRGBA, rgbaRGBA) and "
-        "validated by the nrgba / rgba / half / full streams",
-        "Window.New / SetCell clipping (C11's subject) is re-stated in the driver for the block-image stream"],
+        "validated by the nrgba / rgba / half / full streams; At() outside the bounds = zero colour (image.NRGBA / image.RGBA)",
+        "C11's window model (Model/Window.lean, Props.C11.drawops_clip) for the clipping of the Draw methods",
+        "Gen/ImageFlow.lean pins statement texts of the hand-transcribed code (cellPixelSize, Resize cell arithmetic, Draw gates, upload closure, "
+        "block Draw loops, render's placement loops); the correspondence run checks the transcriptions themselves"],
     "level_text": "Proved for all inputs (Lean, no bound): fit, no_upscale, aspect, no_panic and the CellSize corollaries for "
-                  "kitty/sixel/half/full over the arm structure regenerated from image.go, for every float step meeting Sound; "
-                  "placement_diff for all op histories (induction; invariant last = previous frame) against an independent frame-"
-                  "history spec; opaque_exact (NRGBA and RGBA sources, half and full block), translucent_within_one (kernel "
-                  "evaluation of all 255x256 pairs), alpha_kept, transparent_default (four-way glyph table, full-block threshold). "
-                  "F51 repaired (witness: fit is false of the old arm structure); F52 recorded (witness: zero cell size panics).",
+                  "kitty/sixel/half/full over the arm structure regenerated from image.go, for every float step meeting Sound; round 2: no_panic_term "
+                  "(no division by zero for ANY terminal report, F52 repaired), fit_term, CellSize exactly = cells the resized pixels occupy "
+                  "(cell_size_exact_*), all Int boxes (box_negative_empty, fit_box), the cell<->pixel mapping of half/full block images for every image "
+                  "(block_cell_pixels, block_pixel_rows), drawing stays inside the window composed with C11 (block_draw_clipped, sixel_draw_clipped, "
+                  "sixel_placement_inside), upload bookkeeping of kitty images over all histories (upload_conservation, no_reupload_while_unchanged, "
+                  "upload_after_resize); placement_diff for all op histories against an independent frame-history spec; opaque_exact (NRGBA and RGBA "
+                  "sources, half and full block), translucent_within_one (kernel evaluation of all 255x256 pairs), alpha_kept, transparent_default. "
+                  "F51, F52 repaired; F120 recorded (a kitty placement can exceed its window: Witness/F120, kitty_placement_inside_partial).",
     "level_note": "Validated by correspondence only: that the model is the code (VerifResizeDims / VerifToRGB / VerifAverageColor / "
-                  "real block images / real kitty placements on a fake console, 0 mismatches), the float hypothesis on the values "
-                  "seen, Window clipping of block images, upload bookkeeping of kitty images (k.buf accumulates encodings). "
-                  "Modelled, not verified: nothing is proved about pixels of rescaled images (NearestNeighbor) or about Sixel "
-                  "placements beyond the shared render loops.",
-    "assumptions": ["box dimensions w,h >= 0 and image dimensions >= 1 (negative boxes and empty images are out of scope)",
-                    "cell pixel size >= 1 in both directions for the fit theorems (the excluded point is finding F52)",
+                  "real block images / real kitty and sixel placements on a fake console incl. degenerate pixel reports, signed boxes, windows of their "
+                  "own; 0 mismatches), the float hypothesis on the values seen. Oracles on the implementation independent of the model: fit / no-upscale / "
+                  "aspect, cell geometry, CellSize = ceil(px/cell) exactly, negative box => empty, glyph table and colours, mustWrite / mustDelete, kitty "
+                  "placement inside its window (F120). Modelled, not verified: nothing is proved about which source pixels NearestNeighbor picks, nor about "
+                  "the content of the PNG / sixel data.",
+    "assumptions": ["image dimensions >= 1 (empty images are out of scope); box dimensions are any Int (round 2)",
                     "col,row of a placement within 0..65535 (the kitty placement id packs col<<16|row)"],
     "timeout": 1800,
 }
